@@ -350,3 +350,121 @@ def rule_connection_end_signalled(ctx, rule='C11.k'):
                         'receiver keeps waiting, the close sequence never runs (pending requests hang, no on_close)'
                         % kind)
     rep.require(rule, 'feeders of message transports', n_feeders, 7)
+
+
+# ------------------------------------------------------------------------------------------ only bytes reach the parser
+BYTES_ONLY_CALLS = ('receive_bytes', 'recv_bytes', 'read', 'readexactly')
+
+
+def _bytes_evidence(fn, loop_for, expr):
+    """Why the expression handed to receive_data can only be bytes, or None.  Accepted evidence (enumerated from the
+    transports of this repository): a dominating test of the message type against a ...BINARY constant, a dominating
+    isinstance test naming bytes / a Bytes* event class / a *DataReceived event class, a dominating truth test of a
+    parameter called bytes_data, or a value produced by an API that returns bytes only (receive_bytes)."""
+    names = {x.id for x in ast.walk(expr) if isinstance(x, ast.Name)}
+    parents = {}
+    for a in ast.walk(fn.node):
+        for b in ast.iter_child_nodes(a):
+            parents[b] = a
+    # value from a bytes-only API, through single assignments
+    defs = {}
+    for n in walk_local(fn.node):
+        if isinstance(n, ast.Assign) and len(n.targets) == 1 and isinstance(n.targets[0], ast.Name):
+            defs.setdefault(n.targets[0].id, []).append(n.value)
+    for nm in names:
+        for v in defs.get(nm, []):
+            for c in ast.walk(v):
+                if isinstance(c, ast.Call) and isinstance(c.func, ast.Attribute) and c.func.attr in BYTES_ONLY_CALLS:
+                    return 'the value comes from %s()' % c.func.attr
+    # dominating tests: If statements whose body contains the loop
+    x = loop_for
+    while x in parents:
+        par = parents[x]
+        if isinstance(par, ast.If) and x in par.body:
+            t = par.test
+            text = ast.unparse(t)
+            tn = {y.id for y in ast.walk(t) if isinstance(y, ast.Name)}
+            root_names = set(names)
+            # names the message was derived from (msg.data -> msg)
+            if isinstance(t, ast.Compare) and len(t.ops) == 1 and isinstance(t.ops[0], (ast.Eq, ast.Is)) and \
+                    'BINARY' in text and tn & root_names:
+                return 'guarded by %s' % text
+            if isinstance(t, ast.Call) and isinstance(t.func, ast.Name) and t.func.id == 'isinstance' and \
+                    len(t.args) == 2 and tn & root_names:
+                cls_text = ast.unparse(t.args[1])
+                if any(k in cls_text for k in ('bytes', 'Bytes', 'DataReceived', 'bytearray', 'memoryview')):
+                    return 'guarded by %s' % text
+            if isinstance(t, ast.Name) and t.id in root_names and 'bytes' in t.id:
+                return 'guarded by the truth of %s' % t.id
+        if isinstance(par, (ast.FunctionDef, ast.AsyncFunctionDef)):
+            break
+        x = par
+    # an early `continue` / `return` for everything that is not bytes, before the hand-off in the same block
+    blk = parents.get(loop_for)
+    body = getattr(blk, 'body', None)
+    if isinstance(body, list) and loop_for in body:
+        for st in body[:body.index(loop_for)]:
+            if isinstance(st, ast.If) and st.body and isinstance(st.body[-1], (ast.Continue, ast.Return)):
+                t = st.test
+                if isinstance(t, ast.UnaryOp) and isinstance(t.op, ast.Not) and isinstance(t.operand, ast.Call) and \
+                        isinstance(t.operand.func, ast.Name) and t.operand.func.id == 'isinstance' and \
+                        {y.id for y in ast.walk(t.operand.args[0]) if isinstance(y, ast.Name)} & names and \
+                        any(k in ast.unparse(t.operand.args[1]) for k in ('bytes', 'Bytes', 'bytearray')):
+                    return 'everything that is not bytes is skipped first (%s)' % ast.unparse(t)
+    # a generator in the same class that yields only under such a guard (aiohttp server: _message_generator)
+    return None
+
+
+def rule_only_bytes_reach_the_parser(ctx, rule='C12.h'):
+    """A websocket peer can send TEXT messages; the frame parser extends a bytearray with what it is handed and raises
+    on a str.  Each message transport must therefore hand the parser bytes only: the hand-off is guarded by a test of
+    the message type, or the value comes from an API that returns bytes only."""
+    rep = ctx.report
+    repo = ctx.repo
+    base = repo.cls('rsocket.transports.abstract_messaging:AbstractMessagingTransport')
+    impls = repo.concrete_subclasses(base, include_self=False)
+    seen = set()
+    n = 0
+    for k in sorted(impls, key=lambda c: c.qualname):
+        for fn in _feeders(repo, k):
+            if fn.qualname in seen:
+                continue
+            seen.add(fn.qualname)
+            for loop in [x for x in walk_local(fn.node) if isinstance(x, (ast.AsyncFor, ast.For)) and
+                         'receive_data' in ast.unparse(x.iter)]:
+                call = [c for c in ast.walk(loop.iter) if isinstance(c, ast.Call) and
+                        isinstance(c.func, ast.Attribute) and c.func.attr == 'receive_data'][0]
+                if not call.args:
+                    raise AnalysisError('%s: receive_data without a message argument in %s' % (rule, fn.short))
+                # message framing (prefix size 0) is what websocket-style transports use; a transport that parses a
+                # byte stream (QUIC stream data) has no text messages
+                size = call.args[1] if len(call.args) > 1 else next(
+                    (kw.value for kw in call.keywords if kw.arg == 'header_length'), None)
+                if not (isinstance(size, ast.Constant) and size.value == 0):
+                    continue
+                n += 1
+                msg = call.args[0]
+                why = _bytes_evidence(fn, loop, msg)
+                if why is None and isinstance(msg, ast.Name):
+                    # the message variable of an enclosing loop over a generator of this class that filters
+                    outer = [x for x in walk_local(fn.node) if isinstance(x, (ast.AsyncFor, ast.For)) and
+                             isinstance(x.target, ast.Name) and x.target.id == msg.id and loop in list(ast.walk(x))]
+                    for o in outer:
+                        if isinstance(o.iter, ast.Call) and isinstance(o.iter.func, ast.Attribute) and \
+                                isinstance(o.iter.func.value, ast.Name) and o.iter.func.value.id == 'self' and \
+                                fn.cls is not None and fn.cls.lookup(o.iter.func.attr) is not None:
+                            gen = fn.cls.lookup(o.iter.func.attr)
+                            ys = [y for y in walk_local(gen.node) if isinstance(y, ast.Yield) and y.value is not None]
+                            whys = []
+                            for y in ys:
+                                par_stmt = None
+                                for st in ast.walk(gen.node):
+                                    if isinstance(st, ast.Expr) and st.value is y:
+                                        par_stmt = st
+                                whys.append(_bytes_evidence(gen, par_stmt, y.value) if par_stmt is not None else None)
+                            if ys and all(whys):
+                                why = 'iterates %s(), which yields only when %s' % (gen.node.name, whys[0])
+                rep.add(rule, '%s / only bytes are handed to the frame parser' % fn.short, fn, why is not None,
+                        why or 'whatever the websocket delivers - a TEXT message is a str - goes to receive_data(), '
+                               'which raises on it: one text frame from the peer takes the connection down')
+    rep.require(rule, 'hand-offs to the frame parser in message transports', n, 7)
